@@ -59,7 +59,13 @@ StepClass(r, i, s, w, prevNT, dob, dfx, grid) ==
         grows == i >= 2 /\ ~NoGrowth(r.obs.steps[i - 1].size, s.size)
         plain == ~Has(s, "sk") \/ PlainOKSk(s.sk, w, prevNT, grid)
         faithful == ~Has(s, "sk") \/ ~Has(s, "skp") \/ PrintFaithfulSk(s.sk, s.skp, grid)
+        \* two statements: a copy taken after the call keeps its window when the original gets the next one, and the
+        \* original keeps its window when the copy gets another one
+        dragged == \/ Has(s, "cond_after_copy") /\ s.cond_after_copy # s.cond
+                   \/ Has(s, "copy_cond") /\ s.copy_cond # s.cond
+                   \/ Has(s, "copy_later") /\ s.copy_later # s.cond
     IN IF unmapped THEN "unmappable"
+       ELSE IF dragged THEN "copy-not-independent"
        ELSE IF ~holds THEN
               IF Unstrippable(r.c) /\ asDesign
               THEN (IF failed THEN "Dev_NowBoundLeftInvalid" ELSE "Dev_TimeBoundNotPrintedAsTime")
@@ -78,10 +84,12 @@ StepClasses(r, i, prevNT, dcond, fcond, grid, acc) ==
            dnext == SetTRx(dcond, w, FALSE, ParenTopOr)
            fnext == SetTRx(fcond, w, TRUE, ParenTopOr)
            cls == StepClass(r, i, s, w, prevNT, Observe(dnext), Observe(fnext), grid)
-           nextNT == IF Has(s, "rt") THEN s.rt ELSE IF Has(s, "nores") THEN AllTrue ELSE prevNT
+           \* "every other predicate is kept": an empty window selects nothing whatever is kept, so what the NEXT call
+           \* has to keep is still what this one had to keep
+           nextNT == IF ~Lt(w.s, w.e) THEN prevNT ELSE IF Has(s, "rt") THEN s.rt ELSE IF Has(s, "nores") THEN AllTrue ELSE prevNT
        IN StepClasses(r, i + 1, nextNT, dnext, fnext, grid, Append(acc, cls))
 
-Priority == <<"panic", "setrange-error", "setrange-mismatch", "plain-reading-differs", "printed-condition-differs", "condition-grows", "unmappable",
+Priority == <<"panic", "setrange-error", "copy-not-independent", "setrange-mismatch", "plain-reading-differs", "printed-condition-differs", "condition-grows", "unmappable",
               "Dev_NowBoundLeftInvalid", "Dev_TimeBoundNotPrintedAsTime", "drift:setrange">>
 FirstIdx(cs, c) == CHOOSE i \in 1..Len(cs) : cs[i] = c /\ \A j \in 1..(i - 1) : cs[j] # c
 
